@@ -519,6 +519,16 @@ def x_run(ctx, case):
                 def __init__(self, verbosity=None, failfast=None, buffer=None, stdout=None):
                     self.stdout = stdout
             runner_kw = {"testRunner": OlderRunner}
+    def run_program(argv, **kw):
+        """TestProgram(argv=...) - or, the way a console script does it, with the arguments left in sys.argv."""
+        if not case.get("argv_from_sys"):
+            return TestProgram(module=mod_arg, argv=argv, **kw)
+        saved_argv = sys.argv
+        sys.argv = list(argv)
+        try:
+            return TestProgram(module=mod_arg, **kw)
+        finally:
+            sys.argv = saved_argv
     d = tempfile.mkdtemp(prefix="tvm-c19-")
     try:
         if case.get("after_failed_import"):
@@ -554,7 +564,7 @@ def x_run(ctx, case):
                     return "".join(self.parts)
             out = ListWriter()
         try:
-            TestProgram(module=mod_arg, argv=["prog", "--list"] + names, stdout=out, exit=False, **runner_kw)
+            run_program(["prog", "--list"] + names, stdout=out, exit=False, **runner_kw)
         except (SystemExit, Exception) as e:  # noqa - in-domain arguments: that is the violation
             ctx.check(False, "run.list-prints-exactly-the-ids", {"TestProgram raised": repr(e), "argv": ["--list"] + names})
             return True
@@ -572,7 +582,7 @@ def x_run(ctx, case):
         del runlog[:]
         out = io.StringIO()
         try:
-            TestProgram(module=mod_arg, argv=["prog", "--load-list", path] + names, stdout=out, exit=False, **runner_kw)
+            run_program(["prog", "--load-list", path] + names, stdout=out, exit=False, **runner_kw)
         except Exception as e:  # noqa - in-domain arguments: that is the violation
             ctx.check(False, "run.load-list-runs-exactly-the-listed", {"TestProgram raised": repr(e), "keep": keep})
             return True
@@ -586,7 +596,7 @@ def x_run(ctx, case):
         del runlog[:]
         out = io.StringIO()
         try:
-            TestProgram(module=mod_arg, argv=["prog", "--list", "--load-list", path] + names, stdout=out, exit=False,
+            run_program(["prog", "--list", "--load-list", path] + names, stdout=out, exit=False,
                         **runner_kw)
         except (SystemExit, Exception) as e:  # noqa
             ctx.check(False, "run.list-prints-exactly-the-ids", {"TestProgram raised": repr(e), "with": "--load-list"})
@@ -874,7 +884,8 @@ def run(ctx):
         rng.shuffle(keep)
         ctx.execute("run", {"tree": tree, "keep": keep, "style": rng.randrange(6),
                             "after_failed_import": rng.random() < 0.3, "via_load_tests": rng.random() < 0.4,
-                            "bare_runner": rng.choice([False, False, False, False, True, True, "no_tb_locals"]), "falsy_stdout": rng.random() < 0.3,
+                            "bare_runner": rng.choice([False, False, False, False, True, True, "no_tb_locals"]),
+                            "argv_from_sys": rng.random() < 0.25, "falsy_stdout": rng.random() < 0.3,
                             "module_as": rng.choice([None, None, "name", "dotted"])})
     for how in ("shared", "wrapping"):
         for k in (1, 2, 3, 6, 12):
